@@ -224,6 +224,39 @@ Theorem C20_apply_stateless : forall pfx pfs (sA sA' sB : store V),
      Inv s' /\ Forall2 (field_spec V D jdec unm_ok ans sB s' pfx) pfs frs).
 Proof. exact (apply_twice_stateless V D jdec unm_ok ans now_s). Qed.
 
+(* ---- several structs (StoreConfig.Structs with two or more entries; several parsed values).
+   NewStore applies the structs in order and returns the error of the FIRST struct whose Apply reports
+   one (store.go:248-252).  The composed Apply reports an error IFF some struct's Apply does - iff some
+   tagged field of some struct fails, judged against the store the loop starts with (applying earlier
+   structs changes no secret's value) -; the struct it stops at is the first such struct, exactly the
+   structs up to it have results, and with no failing field every struct has been applied.  So no
+   struct's error can be swallowed by a later struct that applies cleanly. *)
+Theorem C20_structs_error_iff : forall (l : list (bstr * list (pfield))) (s : store V), Inv s ->
+  let '(s', frss, rq, e) := apply_structs jdec unm_ok ans now_s s l in
+  (e <> None <-> exists pfx pfs pf, In (pfx, pfs) l /\ In pf pfs /\ fails V D jdec unm_ok ans s pfx pf = true) /\
+  (forall k, e = Some k ->
+     length frss = S k /\
+     (exists pfx pfs pf, nth_error l k = Some (pfx, pfs) /\ In pf pfs /\ fails V D jdec unm_ok ans s pfx pf = true) /\
+     (forall j pfx pfs pf, (j < k)%nat -> nth_error l j = Some (pfx, pfs) -> In pf pfs ->
+        fails V D jdec unm_ok ans s pfx pf = false)) /\
+  (e = None -> length frss = length l).
+Proof.
+  intros l s I. pose proof (apply_structs_error_iff V D jdec unm_ok ans now_s l s I) as H.
+  destruct (apply_structs jdec unm_ok ans now_s s l) as [[[s' frss] rq] e]. tauto.
+Qed.
+
+(* every struct that is applied gets the results of ITS OWN (prefix, fields) - whatever the other entries
+   are, in particular when they are other values of the SAME struct type: the per-field specification of
+   C20_field_values holds for entry k with respect to the store it was handed, in which every secret has
+   the value it had at the start.  In the model entries share nothing (there is no per-type state); that
+   the Go code caches nothing per reflect.Type is checked by the correspondence run, mode "structs". *)
+Theorem C20_structs_each_own : forall (l : list (bstr * list (pfield))) (s : store V), Inv s ->
+  let '(s', frss, rq, e) := apply_structs jdec unm_ok ans now_s s l in
+  forall k pfx pfs frs, nth_error l k = Some (pfx, pfs) -> nth_error frss k = Some frs ->
+    exists sk sk', (forall n, value_of V ans sk n = value_of V ans s n) /\
+                   Forall2 (field_spec V D jdec unm_ok ans sk sk' pfx) pfs frs.
+Proof. exact (apply_structs_each V D jdec unm_ok ans now_s). Qed.
+
 End C20.
 
 Print Assumptions C20_path_model.
@@ -239,6 +272,8 @@ Print Assumptions C20_reject_upfront.
 Print Assumptions C20_errors_joined.
 Print Assumptions C20_secrets_pure.
 Print Assumptions C20_apply_stateless.
+Print Assumptions C20_structs_error_iff.
+Print Assumptions C20_structs_each_own.
 
 (* ---- non-vacuity: a concrete struct, store and service *)
 Open Scope N_scope.
